@@ -136,6 +136,54 @@ def _r207(rep, fn, pm):
     return n
 
 
+def _data_rows_only(v, depth=0):
+    """does the value stand for a collection / stream that holds one item per DATA row of a source (and nothing else), so
+    that it is empty when the source has a header and no data rows?"""
+    if not v or depth > 2:
+        return False
+    ok = False
+    for a in v:
+        if a[0] == 'ITER':
+            # a stream over the data rows of a source, or over a list of them (`mat:`), element by element
+            if a[2] == 'D' and a[1] and not a[1].startswith(('?', 'gen:', 'local', 'row:', 'bounded:', 'mat:bounded:', 'merge')):
+                ok = True
+            else:
+                return False
+        elif a[0] == 'FRESH' and a[1] in ('list', 'tuple', 'set', 'deque'):
+            if a[3] and _elems_from_rows(a[3]):
+                ok = True
+            else:
+                return False
+        elif a == UNDEF:
+            continue
+        else:
+            return False
+    return ok
+
+
+def _elems_from_rows(el):
+    el = [a for a in el if a != UNDEF]
+    return bool(el) and all(a[0] == 'ROW' for a in el)
+
+
+def _r207b(rep, fn, events):
+    """max(...) / min(...) over one item per data row (a materialised list of the rows, or a generator over it) without a
+    default: raises ValueError when there are no data rows."""
+    for ev in events:
+        if ev.kind != 'call' or not (ev.info['names'] & {'builtin:max', 'builtin:min'}):
+            continue
+        args = ev.info['args']
+        kw = ev.info.get('kw') or {}
+        if len(args) != 1 or 'default' in kw:
+            continue
+        node = ev.node
+        v = args[0]
+        if _data_rows_only(v):
+            rep.violated('R20.7', fn, norm(node)[:60],
+                         '%s() is applied to one item per data row (%s) without a default: for a table with a header and no data '
+                         'rows the argument is empty and the call raises ValueError' % (norm(node.func), fmt_value(v)), node)
+
+
 def run(ctx):
     rep = ctx.report
     rep.explanation = (
@@ -160,6 +208,8 @@ def run(ctx):
     rep.rule('R20.6', 'a list is not resized inside a loop that iterates over it (exhausted-input bookkeeping)')
     rep.rule('R20.8', 'a table iterator that can end for lack of data rows (next() under except StopIteration: return) has yielded its header before: a header-only table stays a header-only table')
     ctx.attempt(r208, ctx, rep)
+    rep.rule('R20.10', 'an operator that emits a row for a key it does not find in a lookup (padding it) does not return early when the lookup is empty: with a header-only table on that side every row of the other side is such a row')
+    ctx.attempt(r2010, ctx, rep)
     from .common import check_zero_trip_dicts as _ztd
     rep.rule('R20.9', 'a plain dict that gets its entries only inside a data loop is not subscripted after the loop without a guard (KeyError when there are no data rows)')
     ctx.floor('functions_scanned_for_dicts', ctx.attempt(_ztd, ctx, rep, 'R20.9', ctx.functions(QUICK_PREFIXES if ctx.tier == 'quick' else THOROUGH_PREFIXES)) or 0, 300)
@@ -184,6 +234,7 @@ def run(ctx):
         _r205(rep, fn, fa, events, pm)
         _r206(rep, fn, fa, events, pm)
         _r207(rep, fn, pm)
+        _r207b(rep, fn, events)
         for ev in events:
             if ev.kind == 'next':
                 v = ev.info['iter']
@@ -469,3 +520,46 @@ def r208(ctx, rep):
             else:
                 rep.held('R20.8', fn, norm(ev.node)[:50], 'not reachable between reading the header and yielding it', ev.node)
     ctx.floor('guarded_first_row_reads', n, 8)
+
+
+# ------------------------------------------------------------------------ R20.10
+def r2010(ctx, rep):
+    """Two beliefs in one function that cannot both be right: the probe loop yields a (padded) row when the key is absent
+    from the collection C, and an early `if not C: return` yields nothing when every key is absent.  C is empty exactly
+    when the table it was built from has no data rows."""
+    n = 0
+    fns = ctx.functions(QUICK_PREFIXES if ctx.tier == 'quick' else THOROUGH_PREFIXES)
+    for fn in fns:
+        if not fn.is_generator:
+            continue
+        body = fn.node.body
+        for i, st in enumerate(body):
+            if not (isinstance(st, ast.If) and not st.orelse and st.body and isinstance(st.body[-1], ast.Return)):
+                continue
+            t = st.test
+            cname = None
+            if isinstance(t, ast.UnaryOp) and isinstance(t.op, ast.Not) and isinstance(t.operand, ast.Name):
+                cname = t.operand.id
+            elif isinstance(t, ast.Compare) and len(t.ops) == 1 and isinstance(t.ops[0], ast.Eq) and \
+                    norm(t.left).startswith('len(') and isinstance(t.left, ast.Call) and t.left.args and \
+                    isinstance(t.left.args[0], ast.Name) and norm(t.comparators[0]) == '0':
+                cname = t.left.args[0].id
+            if cname is None:
+                continue
+            for later in body[i + 1:]:
+                if not isinstance(later, ast.For):
+                    continue
+                for x in ast.walk(later):
+                    if isinstance(x, ast.If) and isinstance(x.test, ast.Compare) and len(x.test.ops) == 1 and \
+                            isinstance(x.test.ops[0], (ast.In, ast.NotIn)) and norm(x.test.comparators[0]) == cname:
+                        absent = x.orelse if isinstance(x.test.ops[0], ast.In) else x.body
+                        n += 1
+                        if any(isinstance(y, ast.Yield) for b in absent for y in ast.walk(b)):
+                            rep.violated('R20.10', fn, norm(st.test),
+                                         'the loop below yields a row when `%s` does not contain the key (line %d), but the '
+                                         'function returns before the loop when `%s` is empty -- which it is when the table it '
+                                         'was built from has a header and no data rows: every row of the streamed side is then '
+                                         'dropped instead of padded' % (cname, x.lineno, cname), st)
+                        else:
+                            rep.held('R20.10', fn, norm(st.test), 'nothing is emitted for an absent key anyway', st)
+    rep.held('R20.10', ('petl.transform', '*'), 'early exits on empty lookups', '%d early exit(s) before a probe loop' % n, None)
